@@ -38,7 +38,8 @@ REQUIRED = {"v1.meaning": {"quick": 3000, "thorough": 50000}, "v1.autodetect_mea
             "history.config_after_other_protocol": {"quick": 200, "thorough": 5000},
             "v1.config_file_meaning": {"quick": 80, "thorough": 2000}, "v1.config_kwarg_meaning": {"quick": 200, "thorough": 4000}}
 REQUIRED_SEEN = {"group_shape": ["same_tag_with_both_polarities"], "tag_name_class": ["contains_operator_word", "contains_negation_character"],
-                 "config_kwarg_form": ["string:1_groups", "string:2_groups", "list:1_groups", "list:2_groups"]}
+                 "config_kwarg_form": ["string:1_groups", "string:2_groups", "list:1_groups", "list:2_groups", "tuple:2_groups"],
+                 "config_file_tags_shape": ["toml", "ini", "toml+command_line", "ini+command_line"]}
 EXHAUSTIVE = True
 EXHAUSTIVE_SCOPE = "all CNFs with <=2 groups x <=3 alternatives over 3 tags; single-group CNFs with every decoration combination"
 NSHARDS = {"quick": 8, "thorough": 16}
@@ -61,7 +62,7 @@ def group_variants(tags):
 def classify(name, w):
     if name == "v1.autodetect_meaning":
         text = w.get("case", {}).get("text")
-        words = text if isinstance(text, list) else (text or "").split()
+        words = list(text) if isinstance(text, (list, tuple)) else (text or "").split()
         if len(words) == 1 and re.match(r"^@?[A-Za-z0-9_.]+:\d+$", words[0]):
             return "autodetect-single-tag-with-limit"
     return name
@@ -116,11 +117,13 @@ def check_cnf(lab, mon, groups, args, sample=False, rename=False):
     want = T.truth_table(ast, SUBSETS)
     nlits = sum(len(g) for g in groups)
     nontrivial = nlits >= 2 or any(neg for g in groups for neg, _ in g)
-    forms = ["list", "string"]
+    forms = ["list", "string", "tuple"]
     if any("," in a for a in args):
         forms.append("list_spaced")
     for form in forms:
-        if form == "list_spaced":
+        if form == "tuple":
+            text = tuple(args)      # (any sequence of arguments, not only a list)
+        elif form == "list_spaced":
             # blanks beside the commas INSIDE one list argument (a quoted --tags="@a, -@b"): still one or-group
             sep = (", ", " , ", " ,")[sum(map(len, args)) % 3]
             text = [a.replace(",", sep) for a in args]
@@ -266,8 +269,8 @@ def config_kwarg_tags(lab, mon, rng, gv):
     from behave.configuration import Configuration
     groups = [rng.choice(gv) for _ in range(rng.choice([1, 2, 2, 3]))]
     args = render(groups, lambda gi, ai: {"neg_char": rng.choice("-~"), "at": rng.random() < 0.6})
-    form = rng.choice(["string", "list"])
-    value = " ".join(args) if form == "string" else list(args)
+    form = rng.choice(["string", "list", "tuple"])
+    value = " ".join(args) if form == "string" else (list(args) if form == "list" else tuple(args))
     want = T.truth_table(T.cnf_to_ast(groups), SUBSETS)
     saved = getattr(lab.P, "_current", None)
     for proto in (lab.P.V1, lab.P.AUTO_DETECT):
@@ -310,14 +313,25 @@ def config_file_tags(lab, mon, rng, gv):
         if not any("," in a for a in render(groups, lambda gi, ai: {"neg_char": "-", "at": True})):
             groups = [[[False, "a"], [True, "b"]]] + groups[:1]
         args = render(groups, lambda gi, ai: {"neg_char": rng.choice("-~"), "at": True})
-        fname = rng.choice(["behave.ini", "setup.cfg", "tox.ini", ".behaverc"])
+        fname = rng.choice(["behave.ini", "setup.cfg", "tox.ini", ".behaverc", "pyproject.toml", "pyproject.toml"])
         with open(fname, "w") as fh:
-            fh.write("[behave]\ntags = %s\n" % "\n    ".join(args))
-        want = T.truth_table(T.cnf_to_ast(groups), SUBSETS)
-        case = {"kind": "config-file-tags", "file": fname, "tags_lines": args}
+            if fname.endswith(".toml"):
+                fh.write("[tool.behave]\ntags = [%s]\n" % ", ".join('"%s"' % a for a in args))
+            else:
+                fh.write("[behave]\ntags = %s\n" % "\n    ".join(args))
+        cmdline = []
+        want_groups = groups
+        if rng.random() < 0.5:
+            # --tags on the command line: the command line IS the expression then (the file's tags only come back through the
+            # {config.tags} placeholder, which is not used here)
+            want_groups = [rng.choice(gv) for _ in range(rng.choice([1, 2]))]
+            cmdline = ["--tags=%s" % a for a in render(want_groups, lambda gi, ai: {"neg_char": rng.choice("-~"), "at": True})]
+        want = T.truth_table(T.cnf_to_ast(want_groups), SUBSETS)
+        case = {"kind": "config-file-tags", "file": fname, "tags_lines": args, "command_line": cmdline}
         mon.case(case, True)
+        mon.seen("config_file_tags_shape", "%s%s" % ("toml" if fname.endswith(".toml") else "ini", "+command_line" if cmdline else ""))
         try:
-            c = Configuration([])
+            c = Configuration(list(cmdline))
             got = T.truth_table_of(c.tag_expression.check, SUBSETS)
             mon.check("v1.config_file_meaning", got == want, lambda: dict(case=case, want=want, got=got, parsed=repr(c.tag_expression), tags=c.tags))
         except Exception as ex:
